@@ -5,7 +5,7 @@
 //! @assume interpreter state is built directly on the stack (no HintingInstance / Vec): value stack of 8 slots with k<=6 symbolic pre-pushed values, cvt 4 + storage 4 symbolic, 2 function + 2 instruction definitions (function 0 active with a symbolic code range), glyph zone and twilight zone of 4 points each with symbolic unscaled/original/current coordinates and flags, one contour [3]
 //! @assume loop budget counters are <= limit (a counter beyond the limit has already returned ExceededExecutionBudget)
 //! @assume graphics state is the default one except: scale, ppem, is_pedantic, backward_compatibility, zp0-2, rp0-2, loop_counter (<= 4: in non-pedantic mode a pop from an empty stack yields 0, so loop-counted instructions really iterate loop_counter times; larger counters are outside the bound) are symbolic (each is settable to that value by one real instruction)
-//! @bound one decode()+dispatch() of a 6-byte program whose first byte is the (concrete) opcode and whose remaining bytes are symbolic
+//! @bound one decode()+dispatch() of a 17-byte program whose first byte is the (concrete) opcode and whose remaining bytes are symbolic (PUSHW[7] needs 16 operand bytes)
 #![allow(unused, clippy::all)]
 
 #[cfg(not(kani))]
@@ -126,8 +126,14 @@ macro_rules! with_engine {
 /// One instruction with concrete opcode `op` from the arbitrary state above: decode + dispatch
 /// must return (Ok or Err), never panic.
 fn one_step(op: u8) {
-    let tail: [u8; 5] = kani::any();
-    let code = [op, tail[0], tail[1], tail[2], tail[3], tail[4]];
+    // PUSHW[7] carries 16 operand bytes
+    let tail: [u8; 16] = kani::any();
+    let mut code = [op; 17];
+    let mut i = 0;
+    while i < 16 {
+        code[i + 1] = tail[i];
+        i += 1;
+    }
     with_engine!(&code, Program::Glyph, |engine| {
         if let Some(Ok(ins)) = engine.decode() {
             let r = engine.dispatch(&ins);
